@@ -44,6 +44,9 @@ class RefSdoServer:
         self.uploads_served = []   # (index, sub, style)
         # behaviour knobs
         self.upload_style = None   # callable(index, sub, data) -> style or None = default
+        self.ul_chunks = None      # list of 1..7: data bytes per upload segment (cycled); None = 7 each.
+        #                            CiA 301 lets a server fill any segment with fewer than 7 bytes (field n)
+        self.ul_seg_no = 0
         self.write_hook = None     # callable(index, sub, data) -> abort code | None
         self.read_hook = None      # callable(index, sub) -> bytes | int abort code | None(=store)
         self.crc_support = True
@@ -253,6 +256,7 @@ class RefSdoServer:
         self.data = bytes(data)
         self.pos = 0
         self.toggle = 0
+        self.ul_seg_no = 0
         self.state = self.UL_SEG
         if style == "seg_size":
             return [struct.pack("<BHBL", 0x41, index, sub, n)]
@@ -269,7 +273,11 @@ class RefSdoServer:
         t = (cmd >> 4) & 1
         if t != self.toggle:
             return self._err("toggle", f"toggle {t}, expected {self.toggle}", d, 0x05030000)
-        chunk = self.data[self.pos:self.pos + 7]
+        size = 7
+        if self.ul_chunks:
+            size = max(1, min(7, self.ul_chunks[self.ul_seg_no % len(self.ul_chunks)]))
+        self.ul_seg_no += 1
+        chunk = self.data[self.pos:self.pos + size]
         self.pos += len(chunk)
         last = self.pos >= len(self.data)
         resp = bytes([(t << 4) | ((7 - len(chunk)) << 1) | (1 if last else 0)]) + chunk.ljust(7, b"\0")
